@@ -140,6 +140,15 @@ def regenerate():
                          f"(* translator failed: {status['T-compile']} *)\n"
                          "Definition translator_failed : False := I.\n")
     try:
+        from translator import cachegen as T13
+        write_if_changed(os.path.join(GEN, "CacheGen.v"), T13.translate(REPO))
+        status["T-cache"] = None
+    except Exception as e:
+        status["T-cache"] = f"{type(e).__name__}: {e}"
+        write_if_changed(os.path.join(GEN, "CacheGen.v"),
+                         f"(* translator failed: {status['T-cache']} *)\n"
+                         "Definition translator_failed : False := I.\n")
+    try:
         from translator import tables as T34
         text = T34.translate(REPO)
         write_if_changed(os.path.join(GEN, "Tables.v"), text)
